@@ -44,6 +44,20 @@ def parse_deductive(rep, funs=None):
                            'of their string-theory contracts (contracts/visitor.py)')
 
 
+def text_deductive(rep):
+    """YPPythonCodeGenerator and the generate methods of the YPCode classes: the emitted text of every tree is its rendering
+    (spec/render.smt2); indentation and loop level are restored by every generate_*"""
+    from ..pyvc.theory_gen import GenTheory
+    from ..pyvc import run as pyrun
+    import sys
+    sys.path.insert(0, fw.VERIF)
+    fw.deductive(rep, sorted(pyrun.load_contracts('generator_text')), ['generator_text'], ['render.smt2'], theory=GenTheory)
+    rep.assumptions.append('spec/render.smt2 is the intended text of every YPCode construct (written from the generator\'s templates); that '
+                           'CPython gives this text the meaning semc of spec/control.smt2 is A-CPY-TEXT (bounded: standin/s_tv.py); '
+                           'repr(str) and str(int(text)) are the uninterpreted reprtext / decint (A-CPY-REPR, A-PY-STR); the header '
+                           'emitted by YPPythonCodeGenerator.generate is covered by AST obligations (C19)')
+
+
 def program_deductive(rep):
     """compile_program / compile_function (C11): exactly one function per dictionary key, in dictionary order, named by the key, with
     parameters arg1..argN"""
